@@ -103,6 +103,10 @@ func caseVariant(t *rapid.T, s string) string {
 // genTokenLines builds 0-2 header lines of token lists; with include the
 // wanted token appears (in some case variant) in one of them.
 func genTokenLines(t *rapid.T, want string, include bool, others, nearMiss []string) []string {
+	// elements that are the wanted token only to a sloppy parser: glued to
+	// white space that is not OWS (no-break space, ideographic space, NEL, VT,
+	// FF), quoted, or carrying a parameter
+	nearMiss = append(append([]string(nil), nearMiss...), "\u00a0"+want, "\u3000"+want, want+"\u00a0", "\u0085"+want, "\x0b"+want, want+"\x0c", `"`+want+`"`, want+";q=1", want+" x")
 	nl := rapid.IntRange(1, 2).Draw(t, "nlines")
 	if !include && rapid.IntRange(0, 5).Draw(t, "absent") == 0 {
 		return nil
@@ -346,17 +350,21 @@ func classifyHS(c ServerHSCase) hsVerdict {
 	if r.Method != "GET" {
 		fault("method")
 	}
+	// A list with malformed elements is not classified as a whole - but if not
+	// even one of its well-formed elements is the wanted token, the header does
+	// not contain it, whatever a parser makes of the rest (elements that merely
+	// look like the token, e.g. preceded by a no-break space, are other strings).
 	ct, cclean := wsref.TokenList(r.Conn)
-	if !cclean {
-		unspec = true
-	} else if !wsref.HasToken(ct, "upgrade") {
+	if !wsref.HasToken(ct, "upgrade") {
 		fault("connection")
+	} else if !cclean {
+		unspec = true
 	}
 	ut, uclean := wsref.TokenList(r.Upg)
-	if !uclean {
-		unspec = true
-	} else if !wsref.HasToken(ut, "websocket") {
+	if !wsref.HasToken(ut, "websocket") {
 		fault("upgrade")
+	} else if !uclean {
+		unspec = true
 	}
 	vt, vclean := wsref.TokenList(r.Ver)
 	switch {
